@@ -1103,6 +1103,11 @@ fn far_case(ch: &mut Choices<'_>, st: &mut Stats) -> CaseResult {
     }
     for (g, (levels, value, depth)) in got.iter().zip(&specs) {
         st.nontrivial(&(d, unit, levels, value));
+        if g.starts_with("ERR") {
+            // no thread could be started for this input: nothing was decided
+            st.excluded();
+            continue;
+        }
         if *g != "REJ" {
             return Err(Fail::new(
                 if g.starts_with("ACC") { "far-over-limit-accepted" } else { "far-over-limit-panic" },
@@ -1131,13 +1136,20 @@ fn far_child() -> i32 {
         let (d, unit, levels, value) = (p[0], p[1], p[2], p[3] == 1);
         // the unchanged engine gives up at level d + 1; the stack is only there so that an engine that does not
         // answers "accepted" instead of dying (reserved, not touched)
-        let h = std::thread::Builder::new().stack_size(3 << 30).spawn(move || {
+        let work = move || {
             std::panic::catch_unwind(|| {
                 let (text, _) = far_text(unit, levels, value);
                 let parser = parser_for(&SCHEME, d, &text);
                 if value { parser.parse_value(&text).map(|_| ()).map_err(|e| e.to_string()) } else { parser.parse(&text).map(|_| ()).map_err(|e| e.to_string()) }
             })
-        });
+        };
+        // a large reservation where the system grants it, smaller ones otherwise (the unchanged engine needs none of it)
+        let mut h = std::thread::Builder::new().stack_size(3 << 30).spawn(work);
+        for shift in [29u32, 26, 23] {
+            if h.is_err() {
+                h = std::thread::Builder::new().stack_size(1 << shift).spawn(work);
+            }
+        }
         match h.map(|h| h.join()) {
             Ok(Ok(Ok(Ok(())))) => println!("ACC"),
             Ok(Ok(Ok(Err(_)))) => println!("REJ"),
